@@ -36,3 +36,6 @@ pub fn memrchr_model(x: u8, text: &[u8]) -> Option<usize> {
     while i > 0 { i -= 1; if text[i] == x { return Some(i); } }
     None
 }
+
+/// R4: the Date header's content is irrelevant where error responses are only constructed and dropped (its exactness is C20)
+pub fn fixdate_const(_: u64) -> String { String::from("Thu, 01 Jan 1970 00:00:00 GMT") }
